@@ -308,6 +308,9 @@ def prep_read(s):
     rc, out, err, lines = run_traced([s.args[1], p] + list(s.args[2:]), p)
     s.ref["result"] = result_line(out)
     s.ref["calls"] = count_calls(lines)
+    if s.args[1] == "seekcheck" and (s.ref["result"] or "").startswith("err"):
+        s.ref["plain_violation"] = ("path-seek-failed", f"{s.describe()}: on a reader from open(path): {s.ref['result']}")
+        return None
     if not (s.ref["result"] or "").startswith("ok"):
         return f"fault-free {s.args[1]} failed: {s.ref['result']} {err[-200:]}"
     if s.args[1] == "decode":
@@ -403,6 +406,11 @@ def scenarios(prop, tier, seed):
         for s in seeds[: (60 if thorough else 3)]:
             for f in fronts:
                 out.append(("read", [s, "decode", f]))
+    if prop == "C06":
+        # fault-free: a reader obtained from open(path) must seek like one made with new_seekable(Cursor)
+        for s in seeds[: (40 if thorough else 4)]:
+            for f in ["sample", "byte", "channel"]:
+                out.append(("read", [s, "seekcheck", f]))
     if prop == "C10":
         kinds = ["grow_small", "grow_big", "shrink", "add_picture", "drop_padding", "callback_error"]
         pads = [300, "none", 4096, 12, 0] if thorough else [300, "none"]
@@ -433,6 +441,11 @@ def run_one(prop, name, args, inject_list, workdir):
     faults = faults_for(s, prop) if inject_list is None else inject_list
     fired, viols, evals = {}, [], 0
     if name == "update" and prop == "C10":
+        evals += 1
+        if s.ref.get("plain_violation"):
+            viols.append((s.ref["plain_violation"][0], s.ref["plain_violation"][1], None))
+        faults = [] if inject_list is None else faults
+    if name == "read" and prop == "C06":
         evals += 1
         if s.ref.get("plain_violation"):
             viols.append((s.ref["plain_violation"][0], s.ref["plain_violation"][1], None))
